@@ -226,6 +226,13 @@ Proof. exact wstep_thr_calculator. Qed.
 Example C11_wu_throttling_nonvacuous : demo_thr_statement.
 Proof. exact demo_thr_warms_up. Qed.
 
+(* Finding C11-F6.  "Reaches the full threshold after sustained demand" is FALSE for a warm-up rule carried by
+   the throttling checker when the grid of its pacing interval admits fewer requests per second than the cold
+   rate: threshold 10, period 3 s, cold factor 2, twelve evenly spaced single-token requests per second for 30 s
+   (360 requests, some admitted): every allowed value stays below 6. *)
+Theorem C11_wu_throttling_reaches_full_refuted : f6_statement.
+Proof. exact f6_never_warms_up. Qed.
+
 Print Assumptions C11_mem_low.
 Print Assumptions C11_mem_not_retrieved.
 Print Assumptions C11_mem_high.
@@ -254,3 +261,4 @@ Print Assumptions C11_wu_cold_start_refuted.
 Print Assumptions C11_wu_nan_invalid.
 Print Assumptions C11_wu_inf_threshold_finite.
 Print Assumptions C11_wu_throttling_same_calculator.
+Print Assumptions C11_wu_throttling_reaches_full_refuted.
